@@ -2801,20 +2801,20 @@ FINDINGS = [
     {"status": "fixed", "key": "intros:expansion-rejected:InvalidDerivationException", "commit": "aa633e8",
      "what": "intros args=[?m. n = 2 * m] prevs=[|- ?m. n = 2 * m, |- _VAR m, n = 2 * m |- n = 2 * m, |- (%m. n = 2 * m) n]: the nested "
              "apply_theorem exE step evaluates (premises matched up to beta) but its expansion raises, so the checker rejects the expansion of intros"},
-    {"status": "fixed", "key": "verit_bfun_elim:expansion-is-bare-premise", "commit": "fixes/C04-13-expand-bare-premise.patch",
+    {"status": "fixed", "key": "verit_bfun_elim:expansion-is-bare-premise", "commit": "a7ef2b0",
      "what": "verit_bfun_elim args=(!x. P x,) prevs=[|- !x. P x] (nothing to eliminate): eval reports |- !x. P x, get_proof_term returns the cited "
              "premise unchanged, ProofTerm.export refuses it (export: atom); same for beta_norm on a beta-normal fact, apply_fact_for [] on a fact "
              "without quantifiers, rewrite_goal / rewrite_goal_with_prev(_sym) when the rewritten goal is the premise itself"},
-    {"status": "fixed", "key": "verit_bfun_elim:expansion-never-produced", "commit": "fixes/C04-13-expand-bare-premise.patch",
+    {"status": "fixed", "key": "verit_bfun_elim:expansion-never-produced", "commit": "a7ef2b0",
      "what": "seed-dependent form of the finding above (the rule is now judged on seed-independent directed inputs only)"},
-    {"status": "fixed", "key": "beta_norm:expansion-is-bare-premise", "commit": "fixes/C04-13-expand-bare-premise.patch",
+    {"status": "fixed", "key": "beta_norm:expansion-is-bare-premise", "commit": "a7ef2b0",
      "what": "beta_norm prevs=[|- P x]: eval reports |- P x, the expansion is the cited premise itself and cannot be exported"},
-    {"status": "fixed", "key": "apply_fact_for:expansion-is-bare-premise", "commit": "fixes/C04-13-expand-bare-premise.patch",
+    {"status": "fixed", "key": "apply_fact_for:expansion-is-bare-premise", "commit": "a7ef2b0",
      "what": "apply_fact_for [] prevs=[|- A]: as above"},
-    {"status": "fixed", "key": "rewrite_goal:expansion-is-bare-premise", "commit": "fixes/C04-13-expand-bare-premise.patch", "what": "as above"},
-    {"status": "fixed", "key": "rewrite_goal_with_prev:expansion-is-bare-premise", "commit": "fixes/C04-13-expand-bare-premise.patch", "what": "as above"},
-    {"status": "fixed", "key": "rewrite_goal_with_prev_sym:expansion-is-bare-premise", "commit": "fixes/C04-13-expand-bare-premise.patch", "what": "as above"},
-    {"status": "fixed", "key": "rewrite_goal:conclusion-differs:head", "commit": "fixes/C04-14-equal_elim-reflexive.patch",
+    {"status": "fixed", "key": "rewrite_goal:expansion-is-bare-premise", "commit": "a7ef2b0", "what": "as above"},
+    {"status": "fixed", "key": "rewrite_goal_with_prev:expansion-is-bare-premise", "commit": "a7ef2b0", "what": "as above"},
+    {"status": "fixed", "key": "rewrite_goal_with_prev_sym:expansion-is-bare-premise", "commit": "a7ef2b0", "what": "as above"},
+    {"status": "fixed", "key": "rewrite_goal:conclusion-differs:head", "commit": "bcbe52b",
      "what": "rewrite_goal ('if_P', P) prevs=[|- false] (the theorem does not rewrite the goal): eval reports |- P, the proof term is the premise "
              "|- false (ProofTerm.equal_elim skipped a reflexive equation without comparing statements); visible once C04-13 lets such a proof term be exported"},
     {"status": "fixed", "key": "verit_or:expansion-never-produced", "commit": "6f6fccd",
